@@ -332,7 +332,14 @@ def gen_c17(tier, seed):
         else:
             # idle child, never reads or writes
             ops += ["RD 0 1 10" if nb else "WR 0 10", "WR 0 %d" % r.choice([10, 70000]), "WR 0 65536" if nb else "Z 1"]
-        parts = [e for e in ev if e.startswith("F ")] + ["N 0", start_tokens(0, o)] + [e for e in ev if not e.startswith("F ")] + ops + ["D 0"]
+        retry = []
+        if "short" not in meta and r.random() < 0.12:
+            # a start that fails first, asking for the other mode: nothing of it may stick to the handle
+            stale = {kk: vv for kk, vv in o.items() if kk != "input"}
+            stale.update({"prog": "missing", "nb": 1 - nb})
+            retry = [start_tokens(0, stale)]
+            meta["retry"] = 1
+        parts = [e for e in ev if e.startswith("F ")] + ["N 0"] + retry + [start_tokens(0, o)] + [e for e in ev if not e.startswith("F ")] + ops + ["D 0"]
         meta["handles"] = {0: o}
         cases.append(Case("c17-%d" % i, " ; ".join(parts), meta, "c17/%d/%d/%d" % (nb, k, i)))
     return cases
@@ -736,12 +743,20 @@ def judge_c17(case, log):
     o = case.meta["handles"][0] if 0 in case.meta["handles"] else case.meta["handles"]["0"]
     nb = o.get("nb")
     final = None
+    skip_retry = bool(case.meta.get("retry"))
     for op, at_call, world, pending in walk(case, log):
         final = world
         name = op["op"]
         hs = world.h[0]
         ios = [t for t in op.get("tr", []) if t[0] in ("read", "write") and t[1] == 0]
         waited = any(t[7] & 2 for t in ios)
+        if name == "S" and skip_retry:
+            # the deliberately failing first start of a retry case (missing program, the other mode)
+            skip_retry = False
+            obs["retry_cases"] = obs.get("retry_cases", 0) + 1
+            if op.get("ret", 0) >= 0 and "hang" not in op:
+                V(vs, "C17", "missing-program-started", "a start with a missing program returned %s" % op.get("ret"))
+            continue
         if name == "S":
             if "hang" in op:
                 V(vs, "C17", "start-blocks", "start never returns (start-up input of %s bytes)" % o.get("input"))
